@@ -89,6 +89,8 @@ def run_query(script, method, line, col, roots=()):
         'get_names': lambda: script.get_names(all_scopes=True, definitions=True, references=True),
         'get_syntax_errors': lambda: script.get_syntax_errors(),
         'search': lambda: list(script.search(str(line))),   # line carries the string
+        'project_search': lambda: list(script._inference_state.project.search(str(line))),
+        'project_complete_search': lambda: list(script._inference_state.project.complete_search(str(line))),
         'rename': lambda: sorted(_rel(p, roots) for p in
                                  script.rename(line, col, new_name='zz_new').get_changed_files()),
     }[method]
